@@ -7,8 +7,8 @@ EXTENDS WcsSampling, Json
 Root(id, proj, nx, ny, cd, r, lon0, per, base, ch, deltas) ==
     [id |-> id, proj |-> proj, nx |-> nx, ny |-> ny, cd |-> cd, r |-> r, lon0 |-> lon0, per |-> per, base |-> base, ch |-> ch, deltas |-> deltas]
 MCRoots == {
-    Root(1, "CAR", 3, 2, <<-1, 0, 0, 1>>, <<2, 2>>, 5, 16, 0, 1, {2, 6}),                  \* small field; recentring by 6 crosses the seam
-    Root(2, "CAR", 8, 4, <<-1, 0, 0, 1>>, <<9, 5>>, 0, 8, 0, 1, {1}),                      \* all sky (8 x 4 pixels of 45 deg)
+    Root(1, "CAR", 3, 2, <<-1, 0, 0, 1>>, <<2, 2>>, 5, 16, 0, 1, {2, 9}),                  \* small field; recentring by 9 crosses the seam
+    Root(2, "CAR", 4, 2, <<-1, 0, 0, 1>>, <<5, 3>>, 0, 4, 0, 1, {1}),                      \* all sky (4 x 2 pixels of 90 deg)
     Root(3, "CAR", 4, 2, <<-1, 0, 0, 1>>, <<20, 3>>, 0, 16, 16777214, 1, {}),              \* reaches beyond native 180 deg; values cross 2^24
     Root(4, "TAN", 3, 2, <<-1, 0, 0, 1>>, <<4, 3>>, 0, 0, 0, 3, {}),                       \* RGB
     Root(5, "TAN", 2, 3, <<-2, 1, -1, 1>>, <<-3, 7>>, 0, 0, 0, 1, {}),                     \* skewed, reference pixel outside
